@@ -10,7 +10,9 @@ EXPLANATION = (
     "length (resize, wipe, substr, split, new[], memcpy, operator[]) has its `subtrahend <= minuend` obligation entailed on every abstract path, or is an individually listed library invariant. R4: a length read from a file reaches resize()/new only "
     "after a bound against the file. R5: all 68 exported entry points are a single try/catch(...) barrier and the function list has them in order. R6: inventory of process-terminating constructs reachable in the library (exit, abort, throw, assert) — new ones are reported. "
     "R7: a pointer local that is NULL on a path (because the out-parameter call that should fill it is known to have failed there) is never dereferenced on that path; the result of a repository function that can return NULL is tested before it "
-    "reaches a NULL-intolerant sink. Memory safety inside OpenSSL/libstdc++ and NULL handling of caller pointers beyond these idioms are not decided.")
+    "reaches a NULL-intolerant sink. R8: nothing handed to the session is freed again. R9: the slot table is changed only where slots are created. R10: P11Attribute::retrieve never copies more than the size it checked, for every (fixed size, stored kind) pair. "
+    "R11: the OSSL:: conversion helpers test their pointer parameters before handing them to OpenSSL (an unknown curve gives no group). R12: a key whose component is empty or missing (C_CreateObject accepts it, an object file can hold it) gives no crypto-library key object - "
+    "every user of getOSSLKey()/getBotanKey() tests the answer before the library sees it (both back ends), the builders hand possibly-NULL big numbers only to NULL-tolerant functions and do not ignore a refusing RSA_set0_key. Memory safety inside OpenSSL/libstdc++ and NULL handling of caller pointers beyond these idioms are not decided.")
 ASSUMPTIONS = ['bool-returning functions with a T** out-parameter leave it untouched when they return false (repo idiom)', 'snprintf(buf, n, ...) leaves strlen(buf) <= n-1', 'the listed library invariants (OpenSSL bignum sizes bounded by the group size)']
 TECHNIQUE = 'custom static analysis over the clang AST: idiom-checked bounded array fills, difference-bound entailment for fixed-field writes and unsigned subtractions, exception-barrier and terminating-call inventory, path-sensitive definite-NULL-dereference analysis'
 LEVEL_TEXT = ('Every instance of the enumerated crash-relevant constructs (27 array fills, fixed-field copies, ~35 unsigned subtractions feeding sizes, file-length allocations, 68 exports, out-parameter pointers) carries a discharged obligation on all abstract paths. '
@@ -920,6 +922,138 @@ def r11_conversion_helpers(ctx, prog):
                     r.ok(f['qname'], site, 'tested first', file=f['file'], line=line)
 
 
+# --------------------------------------------------------------------------------------- R12: crypto-library key objects are complete or absent, and absent is tested
+KEY_ACCESSORS = ('getOSSLKey', 'getBotanKey')
+NULL_TOLERANT = re.compile(r'^(BN_free|BN_clear_free|\w+_set0_\w+|\w+_free)$')
+# set0 functions that refuse a NULL mandatory component and leave the object without it; what happens to such an object afterwards
+HALF_BUILT = {
+    'RSA_set0_key': 'RSA_size, RSA_public_decrypt, RSA_verify and the PSS padding dereference the modulus (replay repro/triage/f30_degenerate_keys.c: 27 of 39 crashes)',
+}
+
+
+def r12_key_objects(ctx, prog):
+    """A key object can reach the crypto back end with an empty component (C_CreateObject accepts it, an object file can hold it).  (a) Whoever asks a key class for the
+    crypto library's key object tests the answer before handing it to the library - the siblings (ECDSA, EDDSA, DH, ECDH) always did; (b) the functions that build that object
+    hand a big number that may be NULL (the conversion of an empty component) only to functions that accept NULL, and do not ignore the refusal of a set0 call that leaves
+    the object without its mandatory part."""
+    r = ctx.rule('C17.R12', 'the crypto library\'s key object is tested before use, and is never built from missing components', floor=12, engine='E2 dominance (contradiction rule: the siblings test) + nullable-value following')
+    defined = {g['qname'] for g in prog.functions.values()}
+
+    def is_accessor(e):
+        return e is not None and e.get('k') == 'Call' and short(e.get('callee') or '') in KEY_ACCESSORS and (e.get('callee') or '') in defined
+
+    def strip(e):
+        while e is not None and e.get('k') in ('Cast', 'Paren') and e.get('e') is not None:
+            e = e['e']
+        return e
+
+    n_users = 0
+    for f in sorted(prog.functions.values(), key=lambda f: (f['file'], f['line'])):
+        if not any(is_accessor(c) for c in calls(f['body'])) or short(f['qname']) in KEY_ACCESSORS or unanalysable(f):
+            continue
+        holders = {}          # local -> canonical accessor expression it was filled from
+        for n in walk(f['body']):
+            if n.get('k') == 'Decl':
+                for d in n['decls']:
+                    if is_accessor(strip(d.get('init'))):
+                        holders[d['var']['name']] = canon(strip(d['init']))
+            elif n.get('k') == 'Assign' and n['a'].get('k') == 'Var' and is_accessor(strip(n.get('b'))):
+                holders[n['a']['name']] = canon(strip(n['b']))
+
+        def uses(e):
+            """(value name, canonical accessor) pairs a call hands to code outside the repository or dereferences"""
+            out = []
+            for a in e.get('args', []):
+                a0 = strip(a)
+                if a0 is None:
+                    continue
+                if a0.get('k') == 'Un' and a0.get('op') == '*':
+                    a0 = strip(a0['e'])
+                if a0.get('k') == 'Var' and a0['name'] in holders:
+                    out.append((a0['name'], holders[a0['name']]))
+                elif is_accessor(a0):
+                    out.append((canon(a0), canon(a0)))
+            return out
+
+        def trig(e, st):
+            if e.get('k') in ('Call', 'Ctor', 'New') and (e.get('callee') or e.get('type') or '') not in defined and not e.get('own'):
+                u = uses(e)
+                if u:
+                    return (e.get('callee') or e.get('type') or '?', tuple(u), e['l'])
+            return None
+        sf = SiteFacts(f, prog, trigger=trig, track_facts=r'^\w+$|^EQ\(\w+,NULL\)$|.*(getOSSLKey|getBotanKey)\(\w+\).*').go()
+        r.paths += sf.paths_returned
+        if sf.sites:
+            ctx.analysed(f)
+            n_users += 1
+        for (callee, us, line), hits in sorted(sf.sites.items()):
+            for name, acc in us:
+                site = '%s(%s)@%d' % (callee, name, line)
+                same = [name] + [v for v, a in holders.items() if a == acc] + [acc]
+
+                def tested(h):
+                    return any((v, True) in h['facts'] or ('EQ(%s,NULL)' % v, False) in h['facts'] for v in same)
+                bad = [h for h in hits if not tested(h)]
+                if bad:
+                    r.violation(f['qname'], site, '%s, the answer of %s, goes to %s without a NULL test; the key class gives no key object when a component of the key is missing or empty (C_CreateObject accepts such a key, an object file can hold one): the process crashes' % (name, acc, callee),
+                                file=f['file'], line=line, path=bad[0]['path'])
+                else:
+                    r.ok(f['qname'], site, 'tested first', file=f['file'], line=line)
+    if n_users < 5:
+        r.undecided('crypto back end', 'users of the key accessors', 'only %d functions that use a key accessor were analysed (expected at least 5)' % n_users, file='', line=0)
+
+    # (b) the builders
+    n_builders = 0
+    for f in sorted(prog.functions.values(), key=lambda f: (f['file'], f['line'])):
+        if short(f['qname']) not in ('createOSSLKey',) or unanalysable(f):
+            continue
+        nullable = {}
+        for n in walk(f['body']):
+            if n.get('k') == 'Decl':
+                for d in n['decls']:
+                    i = strip(d.get('init'))
+                    if i is not None and i.get('k') == 'Call' and (i.get('callee') in ('OSSL::byteString2bn', 'BN_new')):
+                        nullable[d['var']['name']] = i['callee']
+        if not nullable:
+            continue
+        n_builders += 1
+
+        def trig2(e, st):
+            if e.get('k') == 'Call' and e.get('callee') and e['callee'] not in defined and '::' not in e['callee']:
+                vs = tuple(a0['name'] for a0 in (strip(a) for a in e.get('args', [])) if a0 is not None and a0.get('k') == 'Var' and a0['name'] in nullable)
+                if vs:
+                    return (e['callee'], vs, e['l'])
+            return None
+        sf = SiteFacts(f, prog, trigger=trig2, track_facts=r'^\w+$|^EQ\(\w+,NULL\)$|^\w+_set0_\w+@\d+\(.*').go()
+        r.paths += sf.paths_returned
+        ctx.analysed(f)
+        for (callee, vs, line), hits in sorted(sf.sites.items()):
+            if NULL_TOLERANT.match(callee) and callee not in HALF_BUILT:
+                continue
+            for v in vs:
+                site = '%s(%s)@%d' % (callee, v, line)
+                bad = [h for h in hits if (v, True) not in h['facts'] and ('EQ(%s,NULL)' % v, False) not in h['facts']]
+                if callee in HALF_BUILT:
+                    continue
+                if bad:
+                    r.violation(f['qname'], site, '%s is the conversion of a key component (%s) and NULL when the component is empty; %s dereferences it: the process crashes' % (v, nullable[v], callee),
+                                file=f['file'], line=line, path=bad[0]['path'])
+                else:
+                    r.ok(f['qname'], site, 'tested first', file=f['file'], line=line)
+        # a refusing set0 call is not ignored
+        for c in calls(f['body']):
+            if c.get('callee') in HALF_BUILT:
+                site = '%s@%d' % (c['callee'], c['l'])
+                used = any(n is not c and n.get('k') in ('If', 'Un', 'Bin', 'Cond', 'Assign', 'Decl', 'Return') and any(x is c for x in walk(n)) for n in walk(f['body']))
+                if used:
+                    r.ok(f['qname'], site, 'the result is looked at', file=f['file'], line=c['l'])
+                else:
+                    r.violation(f['qname'], site, 'the result of %s is ignored; it refuses a NULL mandatory component (an empty key component converts to NULL) and leaves the object without it: %s' % (c['callee'], HALF_BUILT[c['callee']]),
+                                file=f['file'], line=c['l'])
+    if n_builders < 4 and any(short(g['qname']) == 'createOSSLKey' for g in prog.functions.values()):
+        r.undecided('crypto back end', 'createOSSLKey builders', 'only %d builders that convert key components were analysed (expected at least 4)' % n_builders, file='', line=0)
+
+
 def run(ctx):
     prog = ctx.prog('ossl-file')
     r1_arrays(ctx, prog)
@@ -934,9 +1068,18 @@ def run(ctx):
     r10_retrieve_kinds(ctx, prog)
     if any(g['qname'].startswith('OSSL::') for g in prog.functions.values()):
         r11_conversion_helpers(ctx, prog)
+    r12_key_objects(ctx, prog)
 
 
 MUTANTS = [
+    dict(name='rsa-encrypt-key-not-tested', rule='C17.R12', file='src/lib/crypto/OSSLRSA.cpp', after='bool OSSLRSA::encrypt(',
+         old='\tif (rsa == NULL)\n', new='\tif (false)\n'),
+    dict(name='rsa-public-set0-refusal-ignored', rule='C17.R12', file='src/lib/crypto/OSSLRSAPublicKey.cpp', after='void OSSLRSAPublicKey::createOSSLKey(',
+         old='\tif (!RSA_set0_key(rsa, bn_n, bn_e, NULL))\n', new='\tRSA_set0_key(rsa, bn_n, bn_e, NULL);\n\tif (false)\n'),
+    dict(name='dsa-private-components-not-tested', rule='C17.R12', file='src/lib/crypto/OSSLDSAPrivateKey.cpp', after='void OSSLDSAPrivateKey::createOSSLKey(',
+         old='\tif (bn_p == NULL || bn_q == NULL || bn_g == NULL || bn_priv_key == NULL || bn_pub_key == NULL)\n', new='\tif (bn_q == NULL)\n'),
+    dict(name='dsa-verifyfinal-inline-accessor', rule='C17.R12', file='src/lib/crypto/OSSLDSA.cpp', after='bool OSSLDSA::verifyFinal(',
+         old='\tif (dsa == NULL)\n', new='\tif (false)\n'),
     dict(name='bytestring2pt-no-group-test', rule='C17.R11', file='src/lib/crypto/OSSLUtil.cpp', after='EC_POINT* OSSL::byteString2pt(',
          old='if (len == 0 || grp == NULL) return NULL;', new='if (len == 0) return NULL;'),
     dict(name='retrieve-trusts-stored-kind', rule='C17.R10', file='src/lib/P11Attributes.cpp', after='CK_RV P11Attribute::retrieve(',
